@@ -226,6 +226,10 @@ func runShard(bin, id, tier string, shard, nshards int, hashFile string, budget 
 		}()
 		hung := false
 		timer := time.NewTimer(idle)
+		// "no progress" is judged by processor time, not by wall-clock time alone: a silent
+		// worker that consumed less than half of the idle period in CPU time was starved by a
+		// loaded machine (or is waiting), so the period is extended (at most three times)
+		cpuAtLast, extensions := procCPU(cmd.Process.Pid), 0
 	loop:
 		for {
 			select {
@@ -240,6 +244,7 @@ func runShard(bin, id, tier string, shard, nshards int, hashFile string, budget 
 					}
 				}
 				timer.Reset(idle)
+				cpuAtLast, extensions = procCPU(cmd.Process.Pid), 0
 				switch {
 				case strings.HasPrefix(l, "S "):
 					last, _ = strconv.Atoi(l[2:])
@@ -261,6 +266,12 @@ func runShard(bin, id, tier string, shard, nshards int, hashFile string, budget 
 					}
 				}
 			case <-timer.C:
+				if cpu := procCPU(cmd.Process.Pid); cpu-cpuAtLast < idle/2 && extensions < 3 {
+					extensions++
+					cpuAtLast = cpu
+					timer.Reset(idle)
+					continue
+				}
 				hung = true
 				cmd.Process.Kill()
 				break loop
@@ -293,6 +304,25 @@ func runShard(bin, id, tier string, shard, nshards int, hashFile string, budget 
 		}
 	}
 	return wr
+}
+
+// procCPU returns the processor time (user+system) a process has consumed so far.
+func procCPU(pid int) time.Duration {
+	b, err := os.ReadFile(fmt.Sprintf("/proc/%d/stat", pid))
+	if err != nil {
+		return 0
+	}
+	// fields after the parenthesised command name; utime and stime are fields 14 and 15
+	s := string(b)
+	if i := strings.LastIndexByte(s, ')'); i >= 0 {
+		f := strings.Fields(s[i+1:])
+		if len(f) > 13 {
+			ut, _ := strconv.ParseInt(f[11], 10, 64)
+			st, _ := strconv.ParseInt(f[12], 10, 64)
+			return time.Duration(ut+st) * 10 * time.Millisecond // USER_HZ = 100
+		}
+	}
+	return 0
 }
 
 // tailWriter keeps the head (the reason of a Go crash is printed first) and the tail of a stream.
